@@ -312,7 +312,7 @@ McUnlock(g) ==
            ELSE IF loc[g].si < Len(ScanSeq(g))
            THEN loc' = [loc EXCEPT ![g].si = @ + 1, ![g].unb = unb2, ![g].pc = "mc_lock"] /\ UNCHANGED out
            ELSE IF v.k = "union"
-           THEN Finish(g, IF unb2 # "" THEN "err" ELSE "empty")
+           THEN Finish(g, "err")      \* (an error either way: a member still unbound, or all bound and the value none of them)
            ELSE loc' = [loc EXCEPT ![g].si = 1, ![g].pc = "grt_lock"] /\ UNCHANGED out
   /\ UNCHANGED <<meta, bind, fdMu, Fixed>>
 
@@ -461,8 +461,7 @@ SVisit(v) ==
     [] v.k = "union" ->
          LET m == W.members[v.a] IN
          IF \E i \in DOMAIN m : Declared(m[i], v.T) THEN ObjOutcome(v.T, v.f)
-         ELSE IF \E i \in DOMAIN m : W.static[m[i]] = "" THEN "err"
-         ELSE "empty"
+         ELSE "err"
 SOut(p) == [i \in DOMAIN p |-> SVisit(p[i])]
 
 Isolated == \A g \in G : loc[g].pc = "done" => out[g] = SOut(prog[g])
